@@ -17,6 +17,10 @@ Section StreamFacts.
       dec buf = DMsg m rest -> dec (buf ++ ext) = DMsg m (rest ++ ext).
   Hypothesis H_ext_err : forall buf e rest ext,
       dec buf = DErr e rest -> dec (buf ++ ext) = DErr e (rest ++ ext).
+  (* asking for more bytes after dropping a prefix: with more bytes the call does what it
+     would do on what was left plus those bytes *)
+  Hypothesis H_ext_need : forall buf rest ext,
+      dec buf = DNeed rest -> dec (buf ++ ext) = dec (rest ++ ext).
 
   Inductive final := FPending (buf : list N) | FErr (e : E) (rest : list N).
 
@@ -25,20 +29,30 @@ Section StreamFacts.
 
   (* big-step semantics of draining the buffer *)
   Inductive drains : list N -> list M -> final -> Prop :=
-  | dr_need buf : dec buf = DNeed -> drains buf [] (FPending buf)
+  | dr_need buf rest : dec buf = DNeed rest -> drains buf [] (FPending rest)
   | dr_err buf e rest : dec buf = DErr e rest -> drains buf [] (FErr e rest)
   | dr_msg buf m rest ms f :
       dec buf = DMsg m rest -> drains rest ms f -> drains buf (m :: ms) f.
 
   Lemma drains_det buf ms f : drains buf ms f -> forall ms' f', drains buf ms' f' -> ms = ms' /\ f = f'.
   Proof.
-    induction 1 as [buf Hd|buf e rest Hd|buf m rest ms f Hd Hr IH]; intros ms' f' H2.
-    - inversion H2 as [b H|b e' r' H|b m' r' ms2 f2 H H']; subst; try congruence. split; reflexivity.
-    - inversion H2 as [b H|b e' r' H|b m' r' ms2 f2 H H']; subst; try congruence.
+    induction 1 as [buf rest Hd|buf e rest Hd|buf m rest ms f Hd Hr IH]; intros ms' f' H2.
+    - inversion H2 as [b r0 H|b e' r' H|b m' r' ms2 f2 H H']; subst; try congruence.
+      rewrite Hd in H. injection H as <-. split; reflexivity.
+    - inversion H2 as [b r0 H|b e' r' H|b m' r' ms2 f2 H H']; subst; try congruence.
       rewrite Hd in H. injection H as <- <-. split; reflexivity.
-    - inversion H2 as [b H|b e' r' H|b m' r' ms2 f2 H H']; subst; try congruence.
+    - inversion H2 as [b r0 H|b e' r' H|b m' r' ms2 f2 H H']; subst; try congruence.
       rewrite Hd in H. injection H as <- <-.
       destruct (IH _ _ H') as [-> ->]. split; reflexivity.
+  Qed.
+
+  (* a buffer whose call behaves like the call on another buffer drains like it *)
+  Lemma drains_same b1 b2 ms f : dec b1 = dec b2 -> drains b2 ms f -> drains b1 ms f.
+  Proof.
+    intros He H. inversion H as [b r0 Hd|b e' r' Hd|b m' r' ms2 f2 Hd H']; subst.
+    - apply dr_need. congruence.
+    - apply dr_err. congruence.
+    - eapply dr_msg; [rewrite He; exact Hd|exact H'].
   Qed.
 
   Lemma drains_ext_pending buf ms r :
@@ -46,8 +60,8 @@ Section StreamFacts.
     forall ext ms2 f, drains (r ++ ext) ms2 f -> drains (buf ++ ext) (ms ++ ms2) f.
   Proof.
     intro H. remember (FPending r) as fin eqn:Hf. revert r Hf.
-    induction H as [buf Hd|buf e rest Hd|buf m rest ms f Hd Hr IH]; intros r Hf ext ms2 f2 H2.
-    - injection Hf as <-. exact H2.
+    induction H as [buf rest Hd|buf e rest Hd|buf m rest ms f Hd Hr IH]; intros r Hf ext ms2 f2 H2.
+    - injection Hf as <-. cbn [app]. eapply drains_same; [apply H_ext_need; exact Hd|exact H2].
     - discriminate.
     - cbn [app]. eapply dr_msg; [apply H_ext_msg; exact Hd|]. eapply IH; eauto.
   Qed.
@@ -56,7 +70,7 @@ Section StreamFacts.
     drains buf ms (FErr e rest) -> forall ext, drains (buf ++ ext) ms (FErr e (rest ++ ext)).
   Proof.
     intro H. remember (FErr e rest) as fin eqn:Hf. revert e rest Hf.
-    induction H as [buf Hd|buf e0 rest0 Hd|buf m rest0 ms f Hd Hr IH]; intros e rest Hf ext.
+    induction H as [buf rest1 Hd|buf e0 rest0 Hd|buf m rest0 ms f Hd Hr IH]; intros e rest Hf ext.
     - discriminate.
     - injection Hf as <- <-. apply dr_err. apply H_ext_err. exact Hd.
     - eapply dr_msg; [apply H_ext_msg; exact Hd|]. eapply IH; eauto.
@@ -83,7 +97,7 @@ Section StreamFacts.
       match f with FPending r => st = Pending r | FErr _ _ => st = Stopped end.
   Proof.
     induction fuel as [|fuel IH]; intros buf Hl; [lia|].
-    cbn [drain]. destruct (dec buf) as [m rest| |e rest|] eqn:Hd.
+    cbn [drain]. destruct (dec buf) as [m rest|rest|e rest|] eqn:Hd.
     - pose proof (H_progress _ _ _ Hd) as Hp.
       destruct (Nat.eqb (length rest) (length buf)) eqn:He; [apply PeanoNat.Nat.eqb_eq in He; lia|].
       destruct (IH rest ltac:(lia)) as (ms & f & evs & st & Hdr & Hrun & Hm & He' & Hc & Hst).
@@ -93,7 +107,7 @@ Section StreamFacts.
       + cbn [msgs_of]. congruence.
       + intros [H|H]; [discriminate|]. exact (proj1 Hc H).
       + intros [H|H]; [discriminate|]. exact (proj2 Hc H).
-    - exists [], (FPending buf), [EvNeed (length buf)], (Pending buf).
+    - exists [], (FPending rest), [EvNeed (length rest)], (Pending rest).
       repeat split; try reflexivity; [apply dr_need; exact Hd| |]; intros [H|[]]; discriminate.
     - exists [], (FErr e rest), [EvErr e (length rest)], Stopped.
       repeat split; try reflexivity; [apply dr_err; exact Hd| |]; intros [H|[]]; discriminate.
